@@ -25,7 +25,7 @@ from tqv.props._c16_helpers import FALSE_MARGIN, MARGINS, S, and3, dag, ent, mx,
 # caller-owned arrays handed to the library must come back unchanged (see tqv/purity.py)
 from tqv.purity import install as _install_purity  # noqa: E402
 
-_install_purity('toqito.matrix_props', 'toqito.matrix_ops', 'toqito.state_props')
+_install_purity('toqito.matrix_props', 'toqito.matrix_ops', 'toqito.state_props', twice=True, skip_twice=('sk_operator_norm', 'is_block_positive', 'positive_semidefinite_rank'))
 
 PROPERTY = "C16"
 RULE = (
